@@ -203,6 +203,9 @@ func c06rPrelude() []c06rTable {
 		// canonical names the scripted upstream answers negatively
 		{label: "pre-cname-upstream-negative", entries: E("a.test", "s.fail", "b.a.test", "n.nodata", "x.test", "other.example", "*.x.test", "u.down", "test", "m.multi"),
 			extraQ: []string{"s.fail", "n.nodata", "u.down", "m.multi"}},
+		// round 8: canonical names whose upstream answer has a shape of its own
+		{label: "pre-cname-upstream-shapes", entries: E("a.test", "e.cdn", "b.a.test", "e.cdn3", "c.b.a.test", "e.cdn2", "x.test", "c.cnameonly", "*.x.test", "o.oddorder", "test", "t.otherfirst"),
+			extraQ: []string{"e.cdn", "e.cdn3", "c.cnameonly", "o.oddorder", "t.otherfirst"}},
 		{label: "pre-chain-upstream-negative", entries: E("a.test", "x.test", "x.test", "s.fail", "*.a.test", "y.x.test", "y.x.test", "N.NoData")},
 	}
 }
@@ -241,7 +244,8 @@ func c06rMixCase(r *vfRand, s string) string {
 // c06rOutside: names outside the table universe; the scripted upstream
 // answers them negatively by suffix.
 var c06rOutside = []string{"other.example", "s.fail", "n.nodata", "u.down", "m.multi",
-	"q.a.test", "d.c.b.a.test", "z.test", "Other.Example", "S.Fail"}
+	"q.a.test", "d.c.b.a.test", "z.test", "Other.Example", "S.Fail",
+	"e.cdn", "e.cdn2", "e.cdn3", "c.cnameonly", "o.oddorder", "t.otherfirst", "E.Cdn"}
 
 // c06rRandAnswer: typed is the domain as configured.
 func c06rRandAnswer(r *vfRand, typed string) string {
@@ -415,7 +419,24 @@ func c06rRandTable(r *vfRand) (t c06rTable) {
 type c06rUpstream struct {
 	calls  []dns.Question
 	failed int
-	ttl    uint32 // TTL of the scripted records; 0 = 60 s
+	ttl    uint32   // TTL of the scripted records; 0 = 60 s
+	sent   []string // the records of the last reply (owner type data), in order
+}
+
+// c06rKey: a record as text (owner in lower case, type, data).
+func c06rKey(rr dns.RR) string {
+	o := strings.ToLower(c06rTrim(rr.Header().Name))
+	switch v := rr.(type) {
+	case *dns.CNAME:
+		return o + " CNAME " + strings.ToLower(c06rTrim(v.Target))
+	case *dns.A:
+		return o + " A " + v.A.String()
+	case *dns.AAAA:
+		return o + " AAAA " + v.AAAA.String()
+	case *dns.TXT:
+		return o + " TXT " + strings.Join(v.Txt, "")
+	}
+	return fmt.Sprintf("%s TYPE%d", o, rr.Header().Rrtype)
 }
 
 var _ upstream.Upstream = (*c06rUpstream)(nil)
@@ -430,13 +451,51 @@ func (u *c06rUpstream) Exchange(req *dns.Msg) (resp *dns.Msg, err error) {
 	if ttl == 0 {
 		ttl = 60
 	}
+	u.sent = nil
 	defer func() {
 		if resp != nil {
 			for _, rr := range resp.Answer {
 				rr.Header().Ttl = ttl
+				u.sent = append(u.sent, c06rKey(rr))
 			}
 		}
 	}()
+	// round 8: the SHAPE of the answer (only for A / AAAA questions)
+	hdr := func(owner string, t uint16) dns.RR_Header {
+		return dns.RR_Header{Name: owner, Rrtype: t, Class: dns.ClassINET, Ttl: 60}
+	}
+	addr := func(owner string) dns.RR {
+		if q.Qtype == dns.TypeA {
+			return &dns.A{Hdr: hdr(owner, dns.TypeA), A: net.IP{9, 9, 9, 9}}
+		}
+		return &dns.AAAA{Hdr: hdr(owner, dns.TypeAAAA), AAAA: net.ParseIP("2001:db8::9")}
+	}
+	cname := func(owner, target string) dns.RR {
+		return &dns.CNAME{Hdr: hdr(owner, dns.TypeCNAME), Target: target}
+	}
+	if q.Qtype == dns.TypeA || q.Qtype == dns.TypeAAAA {
+		switch {
+		case strings.HasSuffix(base, ".cdn"): // the answer starts with a CNAME of the upstream's own
+			resp.Answer = []dns.RR{cname(q.Name, "edge1.cdn.net."), addr("edge1.cdn.net.")}
+			return resp, nil
+		case strings.HasSuffix(base, ".cdn2"):
+			resp.Answer = []dns.RR{cname(q.Name, "edge1.cdn.net."), cname("edge1.cdn.net.", "edge2.cdn.net."), addr("edge2.cdn.net.")}
+			return resp, nil
+		case strings.HasSuffix(base, ".cdn3"):
+			resp.Answer = []dns.RR{cname(q.Name, "edge1.cdn.net."), cname("edge1.cdn.net.", "edge2.cdn.net."),
+				cname("edge2.cdn.net.", "edge3.cdn.net."), addr("edge3.cdn.net.")}
+			return resp, nil
+		case strings.HasSuffix(base, ".cnameonly"): // a CNAME and no address
+			resp.Answer = []dns.RR{cname(q.Name, "edge1.cdn.net.")}
+			return resp, nil
+		case strings.HasSuffix(base, ".oddorder"): // the address before the CNAME
+			resp.Answer = []dns.RR{addr(q.Name), cname(q.Name, "edge1.cdn.net.")}
+			return resp, nil
+		case strings.HasSuffix(base, ".otherfirst"): // a record of another type first
+			resp.Answer = []dns.RR{&dns.TXT{Hdr: hdr(q.Name, dns.TypeTXT), Txt: []string{"c06"}}, addr(q.Name)}
+			return resp, nil
+		}
+	}
 	switch {
 	case strings.HasSuffix(base, ".down"):
 		u.failed++
@@ -531,6 +590,7 @@ type c06rObs struct {
 	err       string // "panic: ..." or "error: ..." from handleDNSRequest
 	upsFailed bool   // the scripted upstream failed an exchange during this request
 	calls     []dns.Question
+	upsSent   []string // records of the upstream's reply (c06rKey), in order
 	res       *dns.Msg
 }
 
@@ -573,7 +633,7 @@ func (o c06rObs) coq() string {
 }
 
 func c06rRun(s *Server, ups *c06rUpstream, deadline time.Duration, name string, qt uint16) (o c06rObs) {
-	ups.calls, ups.failed = nil, 0
+	ups.calls, ups.failed, ups.sent = nil, 0, nil
 	req := createTestMessageWithType(dns.Fqdn(name), qt)
 	pctx := &proxy.DNSContext{Proto: proxy.ProtoUDP, Req: req, Addr: netip.MustParseAddrPort("127.0.0.1:5353")}
 	done := make(chan string, 1)
@@ -596,6 +656,9 @@ func c06rRun(s *Server, ups *c06rUpstream, deadline time.Duration, name string, 
 		o.err = m
 		o.res = pctx.Res
 		o.calls = append(o.calls, ups.calls...)
+		if len(ups.calls) > 0 {
+			o.upsSent = append(o.upsSent, ups.sent...)
+		}
 		o.upsFailed = ups.failed > 0
 	case <-timer.C:
 		o.timeout = true
@@ -904,10 +967,14 @@ func c06rMonitor(tbl []c06rEntry, name string, qt uint16, o c06rObs) (ok bool, k
 			if !isC || !strings.EqualFold(c06rTrim(cn.Hdr.Name), name) || !strings.EqualFold(c06rTrim(cn.Target), asked) {
 				return false, "cname-missing", "first answer is not the CNAME from the queried name to the name asked upstream"
 			}
+			// ... whatever the upstream's answer looks like (its own CNAME
+			// chain first, a CNAME only, odd orders): the rest IS that answer
+			var rest []string
 			for _, rr := range o.res.Answer[1:] {
-				if !strings.EqualFold(c06rTrim(rr.Header().Name), asked) {
-					return false, "cname-chain", "records after the CNAME are not for the canonical name"
-				}
+				rest = append(rest, c06rKey(rr))
+			}
+			if strings.Join(rest, "|") != strings.Join(o.upsSent, "|") {
+				return false, "cname-chain", fmt.Sprintf("the records after the rewrite's CNAME are %v, the upstream answered %v", rest, o.upsSent)
 			}
 			// the canonical name must not have a usable value in the table
 			cCname, cExc, cVal := false, false, false
@@ -1105,6 +1172,25 @@ func TestVerifC06Resp(t *testing.T) {
 					}
 					if c06rHasUpper(c06rTrim(o.calls[0].Name)) {
 						classes["cname-upstream-mixed-case-name"] = true
+					}
+					// the shape of the upstream's answer (round 8)
+					nC, firstC, lastC := 0, false, false
+					for i, k := range o.upsSent {
+						if strings.Contains(k, " CNAME ") {
+							nC++
+							firstC = firstC || i == 0
+							lastC = i == len(o.upsSent)-1
+						}
+					}
+					switch {
+					case nC > 0 && nC == len(o.upsSent):
+						classes["cname-upstream-answer-cname-only"] = true
+					case firstC:
+						classes[fmt.Sprintf("cname-upstream-answer-starts-with-cname-%d", nC)] = true
+					case lastC:
+						classes["cname-upstream-answer-cname-last"] = true
+					case len(o.upsSent) > 1 && strings.Contains(o.upsSent[0], " TXT ") && (qt == dns.TypeA || qt == dns.TypeAAAA):
+						classes["cname-upstream-answer-other-type-first"] = true
 					}
 				default:
 					classes["resp-forwarded"] = true
